@@ -47,12 +47,63 @@ func vfChainSource(n, width int, x int64) (string, int64) {
 	return sb.String(), val
 }
 
+// vfPairsSource builds an expression with exactly n nodes in which almost every operator is a
+// two-leaf operator (+ i0 i0): nested levels (+ <inner> (+ i0 i0) … i0 …). Returns the source and the
+// reference value for i0 = x in the engine's fold order.
+func vfPairsSource(n int, x int64) (string, int64, bool) {
+	type level struct{ k, r int }
+	var levels []level
+	remaining := n - 3
+	if remaining < 0 {
+		return "", 0, false
+	}
+	first := true
+	for remaining > 0 {
+		k, r := 30, 0
+		if first && (remaining%91) == 1 {
+			k = 29
+		}
+		first = false
+		if remaining < 1+3*k {
+			k, r = (remaining-1)/3, (remaining-1)%3
+		}
+		if k+r == 0 {
+			return "", 0, false
+		}
+		levels = append(levels, level{k, r})
+		remaining -= 1 + 3*k + r
+	}
+	var sb strings.Builder
+	for range levels {
+		sb.WriteString("(+ ")
+	}
+	sb.WriteString("(+ i0 i0)")
+	val := x + x
+	for i := len(levels) - 1; i >= 0; i-- {
+		for j := 0; j < levels[i].k; j++ {
+			sb.WriteString(" (+ i0 i0)")
+			val += x + x
+		}
+		for j := 0; j < levels[i].r; j++ {
+			sb.WriteString(" i0")
+			val += x
+		}
+		sb.WriteString(")")
+	}
+	return sb.String(), val, true
+}
+
 // VerifC09: args = [kind, parameter, options, event mode].
 //
 //	"operands" n      one operator with n operands
 //	"flatten"  a,b    (and (and ×a) (and ×b)): a+b operands after ReduceNesting
 //	"nodes"    n      a program with exactly n nodes
 //	"stack"    d      right-nested arithmetic of depth d (operand stack d+1)
+//	"deep"     d,b    the same with a control construct at the deepest point (b = if | and | or | ifand), so that
+//	                  stack slots beyond the int8 range are actually read by jumps
+//	"operands-if" n,p one operator with n operands in the condition / then / else / nested position of an if
+//	"flatten-if" a,b  (if (and (and ×a) (and ×b)) …): a+b operands after ReduceNesting, under an if
+//	"nodes-pairs" n   a program with exactly n nodes built from two-leaf operators (fast-operator candidates)
 //	"marker"   d,name the same with a variable spelled like an internal marker word (fi, end, ...)
 //	"marker-str" d,name  the same with such a string literal as an operator's first operand
 //
@@ -98,6 +149,67 @@ func VerifC09(args []string) {
 			mustAccept = n <= limit
 			mustReject = n > limit
 		}
+	case "nodes-pairs":
+		n, _ := strconv.Atoi(param)
+		ps, pv, ok := vfPairsSource(n, x)
+		vfAssert(ok, "harness: a pairs program of this size exists")
+		src, want = ps, pv
+		limit := 32767
+		if evMode != "" {
+			mustAccept = 2*n <= limit
+		} else {
+			mustAccept = n <= limit
+		}
+		mustReject = n > limit
+	case "deep":
+		dn := vfSplit(param, ',')
+		d, _ := strconv.Atoi(dn[0])
+		bottom := ""
+		switch dn[1] {
+		case "if":
+			bottom = "(if (= i0 i0) i0 (tick))"
+		case "ifand":
+			bottom = "(if (and (= i0 i0) (= i0 i0) (= i0 i0)) i0 (tick))"
+		case "and":
+			bottom = "(if (and (= i0 i0) (!= i0 i0) (= i0 i0)) (tick) i0)"
+		case "or":
+			bottom = "(if (or (!= i0 i0) (= i0 i0) (!= i0 i0)) i0 (tick))"
+		}
+		src = strings.Repeat("(+ i0 ", d) + bottom + strings.Repeat(")", d)
+		acc := x
+		for j := 0; j < d; j++ {
+			acc = x + acc
+		}
+		want = acc
+		mustAccept = true
+	case "operands-if":
+		np := vfSplit(param, ',')
+		n, _ := strconv.Atoi(np[0])
+		sum := "(+" + strings.Repeat(" i0", n) + ")"
+		acc := x
+		for j := 1; j < n; j++ {
+			acc += x
+		}
+		switch np[1] {
+		case "then":
+			src, want = "(if (= i0 i0) "+sum+" i0)", acc
+		case "else":
+			src, want = "(if (!= i0 i0) i0 "+sum+")", acc
+		case "cond":
+			src, want = "(if (and"+strings.Repeat(" (= i0 i0)", n)+") i0 (tick))", x
+		case "nested":
+			src, want = "(+ i0 (if (= i0 i0) (if (!= i0 i0) (tick) "+sum+") i0))", x+acc
+		}
+		mustReject, mustAccept = n > 127, n <= 127
+	case "flatten-if":
+		ab := vfSplit(param, ',')
+		a, _ := strconv.Atoi(ab[0])
+		b, _ := strconv.Atoi(ab[1])
+		src = "(if (and (and" + strings.Repeat(" (= i0 i0)", a) + ") (and" + strings.Repeat(" (= i0 i0)", b) + ")) i0 (tick))"
+		want = x
+		flattened := opts[1] == '1'
+		mustReject = (flattened && a+b > 127) || a > 127 || b > 127
+		mustAccept = !mustReject
 	case "nullary":
 		// (+ i0 … i0 (tick)): n operands, the last one an operand-less operator call
 		n, _ := strconv.Atoi(param)
